@@ -15,6 +15,8 @@ type verdict struct {
 	// and then charges exactly chargee.
 	ok      bool
 	chargee addr20
+	// nobody: authorised, and no account is charged (ring-signed UTXO spend)
+	nobody bool
 	// reason says why it is not authorised (stable, used in violation keys).
 	reason string
 	// unbound: V names another chain or no chain. The chain may refuse it or
@@ -46,6 +48,8 @@ func (w *world) judge(wt *wireTx) verdict {
 		return w.judgeCut(wt)
 	case kMst:
 		return w.judgeMst(wt)
+	case kUtx:
+		return w.judgeUtx(wt)
 	}
 	return verdict{reason: "kind"}
 }
